@@ -408,6 +408,9 @@ carquet_status_t parquet_parse_file_metadata(
 /**
  * Parse a page header from Thrift data.
  *
+ * The binary members of data_page_header.statistics (min/max), when present,
+ * point into `data` and are valid only as long as that buffer is.
+ *
  * @param data Thrift-encoded page header
  * @param size Size of data
  * @param header Output page header
